@@ -22,6 +22,24 @@ Theorem C14_interp :
   sem_block W run_line for_words set_var e n b in_loop w.
 Proof. exact run_exp_sem. Qed.
 
+(** 1b. The same under an INVARIANT of the state instead of a constant flag: if every oracle step
+    (command line, word list, variable binding) preserves [Inv] and [Inv] fixes the value of
+    exit_on_error, the interpreter on the ideal tree is the structured semantics from every state
+    satisfying [Inv] (instance Inv := flag on, e := true: set -e switched on earlier by any step
+    and never switched off -- see C15_sete_combined). *)
+Theorem C14_interp_inv :
+  forall (W : Type) (run_line : W -> str -> W * list Z) (for_words : W -> str -> W * list str)
+         (set_var : W -> str -> str -> W) (eoe : W -> bool) (e : bool) (n : nat) (Inv : W -> Prop),
+  (forall w l, Inv w -> Inv (fst (run_line w l))) ->
+  (forall w t, Inv w -> Inv (fst (for_words w t))) ->
+  (forall w k v, Inv w -> Inv (set_var w k v)) ->
+  (forall w, Inv w -> eoe w = e) ->
+  forall b, wf_block b = true ->
+  forall d in_loop w r txt, (depth_block b < d)%nat -> Inv w ->
+  run_exp W run_line for_words set_var eoe n d (TNode r txt (kids_of_block b)) in_loop w =
+  sem_block W run_line for_words set_var e n b in_loop w.
+Proof. exact run_exp_sem_inv. Qed.
+
 (** The pair tree carries trim(as_str); since d2f4d24 run_exp / run_exp_test_br read
     trim_cmd(as_str), which is the same unless the trimmed text ends in a backslash. *)
 Theorem C14_trim_cmd : forall s, count_bs (rev (trim s)) = 0%nat -> trim_cmd s = trim s.
@@ -68,16 +86,17 @@ Theorem C14_parse_instances :
   (wfp_block wit1 = true /\ parse_ok wit1) /\ (wfp_block wit2 = true /\ parse_ok wit2).
 Proof. split; split; [vm_compute; reflexivity | prove_parse_ok | vm_compute; reflexivity | prove_parse_ok]. Qed.
 
-(** The proved fragment of C14_parse_full, UNBOUNDED ([frag_block]): scripts built, to ANY nesting
-    depth, from
+(** The proved fragment of C14_parse_full, UNBOUNDED ([frag_block]): the property's whole syntax-tree
+    language in the newline spelling without indentation -- scripts built, to ANY nesting depth, from
       - command lines (break / continue included),
-      - `if cond` NL body `fi`,   `if cond` NL body `else` NL body `fi`,
+      - `if cond` NL body { `else if cond` NL body }* [ `else` NL body ] `fi`   (any number of else-if arms),
+      - `for var in words` NL body `done`,
       - `while cond` NL body `done`,
-    in the newline spelling without indentation and without blank lines, every body non-empty;
-    a command line is free of CR / LF, does not start or end with white space and does not start
-    with `if `, `for `, `else if `, `else`, `fi`, `while `, `done`; a condition is one line without
-    `;` and without white space at either end (inner blanks allowed in both).
-    NOT in the fragment: `for`, `else if` arms, the `; then` / `; do` spelling, indentation, blank lines.
+    every body non-empty, no blank lines; a command line is free of CR / LF, does not start or end
+    with white space and does not start with `if `, `for `, `else if `, `else`, `fi`, `while `, `done`;
+    a condition / word list is one line without `;` and without white space at either end (inner
+    blanks allowed); a loop variable is an identifier.
+    NOT in the fragment: the `; then` / `; do` spelling, indentation, blank lines (C14_parse_instances + L1b).
     For every such script the generic PEG interpreter on the regenerated grammar returns, for all
     sufficiently large fuel, the complete parse whose trimmed, EOI-stripped tree is tree_of_script
     (compositional per-rule lemmas + induction over the syntax tree: Proofs/LocustBlocks.v) ... *)
@@ -105,7 +124,10 @@ Example C14_parse_partial_nonvacuous :
               (BCons (SIf nil false (S2 "test -f x") (BCons (SBreak nil) BNil)
                         (AElse nil (BCons (SCmd nil (S2 "ls | wc; date")) (BCons (SCont nil) BNil)) nil))
               (BCons (SCmd nil (S2 "echo $i")) BNil)))
-    (BCons (SIf nil false (S2 "true") (BCons (SWhile nil false (S2 "false") (BCons (SCmd nil (S2 "x")) BNil)) BNil) (ANone nil))
+    (BCons (SIf nil false (S2 "true") (BCons (SWhile nil false (S2 "false") (BCons (SCmd nil (S2 "x")) BNil)) BNil)
+              (AElif nil false (S2 "grep -q a b") (BCons (SCmd nil (S2 "y")) BNil)
+              (AElif nil false (S2 "t 2") (BCons (SFor nil false (S2 "_v1") (S2 "a b2 $NOPE") (BCons (SCmd nil (S2 "echo $_v1")) BNil)) BNil)
+              (AElse nil (BCons (SCmd nil (S2 "z")) BNil) nil))))
      BNil))) = true.
 Proof. vm_compute. reflexivity. Qed.
 
@@ -210,6 +232,7 @@ Example C14_nonvacuous :
 Proof. vm_compute. repeat split. Qed.
 
 Print Assumptions C14_interp.
+Print Assumptions C14_interp_inv.
 Print Assumptions C14_parse_partial.
 Print Assumptions C14_parse_partial_from.
 Print Assumptions C14_parse_while_pos.
